@@ -491,17 +491,27 @@ def stamp_table(run: Run, model: PyModel, rid: str) -> None:
             return [(strftime_shape(args[0]), st)]
         return None
 
-    I = Interp(model, probes={"method:*": meth, "call:*": call_any, "method:term": tm}, max_states=4000)
+    TODAY = Term("datetime.date.today", ())
+    OLD, CREATED, FUTURE = Term("marker:OTHER_DAY", ()), Term("marker:CREATE_DAY", ()), Term("marker:LATER_DAY", ())
+    RANK = {CREATED: 0, OLD: 1, TODAY: 2, FUTURE: 3}  # the scenario's calendar: created < stamped earlier < today < a day still to come
+
+    def cmp_days(I, op, l, r, st):
+        import operator as _op
+
+        fn = {ast.Lt: _op.lt, ast.LtE: _op.le, ast.Gt: _op.gt, ast.GtE: _op.ge}.get(type(op))
+        if fn is not None and l in RANK and r in RANK:
+            return fn(RANK[l], RANK[r])
+        return None
+
+    I = Interp(model, probes={"method:*": meth, "call:*": call_any, "method:term": tm, "compare": cmp_days}, max_states=4000)
     Q = f"{H}._check_for_modified_notes"
     fq = model.func(Q)
-    TODAY = Term("datetime.date.today", ())
-    OLD, CREATED = Term("marker:OTHER_DAY", ()), Term("marker:CREATE_DAY", ())
     D6 = tuple(CharSet(frozenset("0123456789")) for _ in range(6))
     n = 0
     for stamped_before in (False, True):
         for has_old in (False, True):
             for changed in (False, True):
-                for dated in (False, True):
+                for dated in (False, True, "later"):
                     st = State()
 
                     def N(body, md, zid, omd=None):
@@ -514,12 +524,14 @@ def stamp_table(run: Run, model: PyModel, rid: str) -> None:
                     pre = "240105 " if stamped_before else ""
                     new_body = pre + (rest.replace("text", "edited") if changed else rest)
                     old_md = OLD if stamped_before else CREATED
-                    note = N(new_body, TODAY if dated else old_md, "240101#00")
+                    note = N(new_body, FUTURE if dated == "later" else TODAY if dated else old_md, "240101#00")
                     old = N(pre + rest, old_md, "240101#00" if has_old else "240101#99")
                     ctrl, ctrl_old = N("240101#01 control", CREATED, "240101#01"), N("240101#01 control", CREATED, "240101#01")
                     page = st.alloc(HObj("obj", cls="zorg.domain.models._page.Page", fields=dict(notes=st.alloc(HObj("list", items=[note, ctrl])), events=st.alloc(HObj("list")), path=Opaque("path:PAGE"))))
                     oldp = st.alloc(HObj("obj", cls="zorg.domain.models._page.Page", fields=dict(notes=st.alloc(HObj("list", items=[old, ctrl_old])), events=st.alloc(HObj("list")), path=Opaque("path:PAGE"))))
-                    label = f"had_zid_before={has_old}, changed={changed}, dated_today={dated}, stamped_before={stamped_before}"
+                    label = f"had_zid_before={has_old}, changed={changed}, dated_today={dated if dated != 'later' else 'no (dated on a later day)'}, stamped_before={stamped_before}"
+                    if dated == "later":
+                        dated = False
                     try:
                         res = I.run_function(Q, [Opaque("path:ZDIR"), page, oldp], st=st)
                     except Exception as e:
@@ -560,7 +572,7 @@ def stamp_table(run: Run, model: PyModel, rid: str) -> None:
                                 in_ev = [it for x in notes_f for it in s.obj(x).items]
                                 run.check(rid, "the event names exactly the stamped notes", in_ev == [note], "_check_for_modified_notes", f"event notes {len(in_ev)}",
                                           "the queued event does not list exactly the stamped note(s)", file=FILE_H, node=fq.node)
-    run.floor("stamp-table evaluations", n, 16)
+    run.floor("stamp-table evaluations", n, 24)
 
 
 def eq_fields(run: Run, model: PyModel, rid: str) -> None:
